@@ -73,22 +73,40 @@ func listQuery(rnd *rand.Rand) string { return pick(rnd, listQueries) }
 
 func repoName(rnd *rand.Rand, pBad int) string {
 	if rnd.Intn(100) < pBad {
+		if rnd.Intn(3) == 0 {
+			return byteMutant(rnd, pick(rnd, goodRepos))
+		}
 		return pick(rnd, badRepos)
 	}
 	return pick(rnd, goodRepos)
 }
 func digestName(rnd *rand.Rand, pBad int) string {
 	if rnd.Intn(100) < pBad {
+		if rnd.Intn(3) == 0 {
+			return byteMutant(rnd, pick(rnd, goodDigests()))
+		}
 		return pick(rnd, badDigests)
 	}
 	return pick(rnd, goodDigests())
 }
 func tagName(rnd *rand.Rand, pBad int) string {
 	if rnd.Intn(100) < pBad {
+		if rnd.Intn(3) == 0 {
+			return byteMutant(rnd, pick(rnd, goodTags))
+		}
 		return pick(rnd, badTags)
 	}
 	return pick(rnd, goodTags)
 }
+
+// byteMutant: a valid word with one byte replaced by any byte value (mostly an invalid word)
+func byteMutant(rnd *rand.Rand, w string) string {
+	if w == "" {
+		return w
+	}
+	return withByte(w, rnd.Intn(len(w)), byte(rnd.Intn(256)))
+}
+
 func uploadID(rnd *rand.Rand, pBad int) string {
 	if rnd.Intn(100) < pBad {
 		return pick(rnd, badUploadIDs)
@@ -243,4 +261,49 @@ func randomLine(rnd *rand.Rand) (string, string, string) {
 		q = pick(rnd, listQueries)
 	}
 	return m, path, q
+}
+
+// ---------------------------------------------------------------- character-class sweeps
+//
+// The validators of names (repository, tag, digest) classify single bytes.  A valid word with one
+// byte replaced by each of the 256 byte values, at every kind of position the grammar
+// distinguishes (first, second, interior, around a separator, last, at the length limit), shows
+// every byte the validator lets through or refuses at that position; the same with multi-byte
+// UTF-8 letters and digits spliced in, for a validator that classifies runes.
+
+func withByte(word string, i int, b byte) string {
+	return word[:i] + string([]byte{b}) + word[i+1:]
+}
+
+type sweepWord struct {
+	word string
+	pos  []int
+}
+
+var tagSweep = []sweepWord{
+	{"latest", []int{0, 1, 3, 5}},
+	{"a", []int{0}},
+	{"v1.0-rc_1", []int{2, 4, 8}},
+	{strings.Repeat("t", 128), []int{127}},
+}
+var repoSweep = []sweepWord{
+	{"foo/bar", []int{0, 1, 2, 3, 4, 6}},
+	{"a", []int{0}},
+	{"a-b.c__d", []int{1, 2, 5, 7}},
+}
+
+func digestSweep() []sweepWord {
+	return []sweepWord{
+		{digestOf([]byte("x")), []int{0, 3, 5, 6, 7, 40, 70}},
+		{sha512Digest([]byte("x")), []int{5, 7, 134}},
+		{"sha384:" + strings.Repeat("0a", 48), []int{0, 102}},
+	}
+}
+
+// letters and digits outside ASCII (one to three bytes of UTF-8 each), and some non-letters
+var utf8Splices = []string{"é", "ê", "ü", "ú", "µ", "ª", "º", "ß", "ÿ", "к", "е", "Ж", "λ", "日", "٣", "３", "ǅ", "ⅷ", "²", "‿", " ", "​", "·", "×"}
+
+func spliced(word string, i int, ins string) []string {
+	// replacing the byte at i, and inserted before it
+	return []string{word[:i] + ins + word[i+1:], word[:i] + ins + word[i:]}
 }
